@@ -237,7 +237,7 @@ def pattern(ctx, repo, tc):
 
 def families(ctx, s):
     repo = s.repo
-    start = datetime.date(2015, 1, 1) if ctx.tier == "quick" else datetime.date(1980, 1, 1)
+    start = datetime.date(1980, 1, 1)
     dates = [f for f, _ in s.em.intervals(start)]
     checked = set()
     for d in dates:
